@@ -2807,3 +2807,64 @@ func rulePageTailBound(c *Ctx) {
 	}
 	c.Floor("assignments of storedHeaderCount in init", n, 1)
 }
+
+// ---------------------------------------------------------------------------
+// notification-immutable (C04): System.Runtime.GetNotifications pushes the item of every recorded notification - the
+// very object the application log will be built from - onto the caller's stack. A recorded notification therefore has
+// to be immutable: a contract (a callee that later throws and is rolled back included) could otherwise rewrite an
+// event emitted before it ran, and the rewrite is not undone with its layer. Either Context.AddNotification stores
+// stackitem.DeepCopy(item, true), or every caller hands it such a copy.
+func ruleNotificationImmutable(c *Ctx) {
+	fd := c.P.Func("pkg/core/interop", "Context", "AddNotification")
+	if fd == nil {
+		c.Lost("notification-immutable.anchor", "interop.Context.AddNotification not found")
+		return
+	}
+	immutableCopy := func(f *FuncCFG, e ast.Expr) bool {
+		ok := false
+		ast.Inspect(e, func(x ast.Node) bool {
+			if call, isCall := x.(*ast.CallExpr); isCall && f.calleeSym(call) == "pkg/vm/stackitem.DeepCopy" && len(call.Args) == 2 {
+				if v, isC := boolConst(f.Info, call.Args[1]); isC && v {
+					ok = true
+				}
+			}
+			return true
+		})
+		return ok
+	}
+	f := c.P.NewFuncCFG(fd)
+	central := false
+	ast.Inspect(fd.Decl.Body, func(x ast.Node) bool {
+		if kv, ok := x.(*ast.KeyValueExpr); ok {
+			if id, ok := kv.Key.(*ast.Ident); ok && id.Name == "Item" && immutableCopy(f, kv.Value) {
+				central = true
+			}
+		}
+		return true
+	})
+	if central {
+		c.OK("notification-immutable.AddNotification", c.P.Pos(fd.Decl.Pos()), "AddNotification records an immutable deep copy of the item")
+		return
+	}
+	n, bad := 0, 0
+	for _, cd := range c.P.AllFuncDecls() {
+		if cd.Decl.Body == nil || !strings.HasPrefix(pkgRel(cd.Pkg.Types), "pkg/core") {
+			continue
+		}
+		cf := c.P.NewFuncCFG(cd)
+		for _, st := range cf.CallSites("pkg/core/interop.(*Context).AddNotification") {
+			if len(st.call.Args) < 3 {
+				continue
+			}
+			n++
+			key := fmt.Sprintf("notification-immutable.%s#%d", FuncKey(cd.Obj), n)
+			if immutableCopy(cf, st.call.Args[2]) {
+				c.OK(key, c.P.Pos(st.call.Pos()), "the recorded item is an immutable deep copy")
+			} else {
+				bad++
+				c.Fail("notification-immutable."+FuncKey(cd.Obj), c.P.Pos(st.call.Pos()), fmt.Sprintf("%s records a notification whose item stays mutable: System.Runtime.GetNotifications hands the recorded object to any contract, which can rewrite the event (a native Transfer's amount) after it was emitted - also from a callee whose own effects are rolled back", FuncKey(cd.Obj)))
+			}
+		}
+	}
+	c.Floor("callers of AddNotification", n, 8)
+}
